@@ -6,6 +6,6 @@ Open Scope N_scope.
 
 (* the canonical run of a silent peer: the call times out exactly at its deadline and leaves nothing behind *)
 Example silent_peer_times_out :
-  let '(s, _, ok) := canonical (mkscen (mkcfg 30 40 10 4) CAccept [mkact false None false false] 1 1 20 0) in
+  let '(s, _, ok) := canonical (mkscen (mkcfg 30 40 10 4) CAccept [mkact false None false false] 1 1 20 0 false) in
   ok = true /\ model_calls s = [(OTimeout, 20)] /\ queueLen s = 0%Z /\ invokeNum s = 0%Z /\ resp s = [].
 Proof. vm_compute. repeat split; reflexivity. Qed.
